@@ -43,6 +43,9 @@ CLAIMED = {
  "C12": ("exploration", "Go race detector + sequential-equivalence monitor + version-coherence monitor",
          "Under -race and GOMAXPROCS 2/4/16: 16-64 goroutines walk distinct machines over one spec object and must each reproduce the solo result (spec snapshot compared afterwards); 16 walkers over an UpdatableSpec swapped among 4 stamped versions must each carry stamps of exactly one version (walks straddling a swap are counted).",
          "Race detector sees only interleavings that occurred; hosts obtain the spec once per processing call.", "DESIGN.md §4 C12"),
+ "C13": ("exploration", "multi-representation differential on the real loaders and compiler",
+         "Each of 4e2/6e3 abstract specs is rendered into 36 variants (Go structures, JSON, YAML via jsccast/yaml, sio's file-URL loader for YAML and JSON, sio's inline loader) x (inline patterns, JSON-text patterns) x (compiled once, three times, compiled-serialised-reloaded-compiled); all must compile and give identical traces on shared message sequences incl. scalar messages; three negative mutations (unknown interpreter, pattern syntax, branching type) must fail at Compile; no compiled variant may report a compilation problem at run time.",
+         "Deterministic specs; YAML renderer emits the lower-cased keys the hosts' loaders use.", "DESIGN.md §4 C13"),
 }
 
 NOT_YET = "check not built yet in this session (planned: see DESIGN.md §4)"
